@@ -61,6 +61,7 @@ type Server struct {
 	wg              sync.WaitGroup
 	logger          *slog.Logger
 	types           *pgtype.Map
+	extensions      []func(*pgtype.Map)
 	Auth            AuthStrategy
 	BufferedMsgSize int
 	Parameters      Parameters
@@ -138,7 +139,15 @@ func (srv *Server) Serve(listener net.Listener) error {
 }
 
 func (srv *Server) serve(ctx context.Context, conn net.Conn) error {
-	ctx = setTypeInfo(ctx, srv.types)
+	// NOTE: a type map memoizes its encode and scan plans without any
+	// synchronization and could therefore not be shared between connections.
+	// Each connection receives its own map including all extended types.
+	info := pgtype.NewMap()
+	for _, extend := range srv.extensions {
+		extend(info)
+	}
+
+	ctx = setTypeInfo(ctx, info)
 	ctx = setRemoteAddress(ctx, conn.RemoteAddr())
 	defer conn.Close()
 
